@@ -90,7 +90,11 @@ def module_src(m, other, docs):
   end type shape_t
 {ctor_iface}{extra_a}contains
   subroutine helper()
-{d(m + '/helper')}  end subroutine helper
+{d(m + '/helper')}    type local_t
+      !! a type of this procedure only
+      integer :: local_comp
+    end type local_t
+  end subroutine helper
   integer function {only}(n)
     !! unique to {m}
     integer, intent(in) :: n
@@ -139,6 +143,9 @@ def module_of(ctx):
 def gen_reference(ch, ctx):
     """-> (text of the reference, expected targets (list of entity keys; [] = plain text), flags)"""
     mod = module_of(ctx)
+    if ctx.endswith("/helper") and ch.bool(1, 4):
+        # a type declared inside the procedure: it has no page and no anchor, the reference stays plain text
+        return "[[local_t]]", [], {"local-type"}
     form = ch.weighted([(4, "unique"), (3, "qualified"), (4, "scoped"), (4, "child"), (2, "absent"), (1, "hidden"), (2, "code")])
     flags = set([form])
     if form == "unique":
